@@ -53,6 +53,9 @@ def make_cases(rng, tier, budget):
             if st[0] == "build":
                 st[2] = insert_probes(st[2], paths, rng, "r")
         out.append(c)
+    # the path of a previous output turned into a directory, queried before / inside / after (always present)
+    for _ in range((6 if tier == "quick" else 40) * budget):
+        out.append(g.template_output_becomes_dir())
     return out
 
 
